@@ -133,4 +133,46 @@ def LogEntry.faithful (hooks : List Hook) (n : Nat) (x : LogEntry) : Prop :=
   | .check => x.after = x.before
   | .force => x.after = { x.before with st := .ERROR }
 
+/-! ### who may write while somebody is inside
+
+  Two notions the "one at a time" clause of Spec.C01 rests on (theorems in Proofs/EnvConc.lean):
+  a caller that has not yet been inside the mutex (`isNew`: it is about to look the environment up, or
+  waits for the mutex) and, for the one write that is made outside any critical section — the glue's
+  forced ERROR —, the critical sections its writer must have been through before. -/
+
+/-- the caller has not been inside the mutex yet: about to look the environment up, or queueing -/
+def Caller.isNew (c : Caller) : Bool :=
+  match c.pc with
+  | .arrive | .start => true
+  | _ => false
+
+/-- the entry is caller `i`'s own request (through the API glue), carried out under the mutex, refused or failed -/
+def LogEntry.failedOwn (x : LogEntry) (i : Nat) : Bool :=
+  x.caller == i && !x.result.isOk &&
+    (match x.piece with
+     | .locked (.control ..) => true
+     | _ => false)
+
+/-- the entry is caller `i`'s GO_ERROR fallback, carried out under the mutex, refused or failed -/
+def LogEntry.failedGoError (x : LogEntry) (i : Nat) : Bool :=
+  x.caller == i && !x.result.isOk &&
+    (match x.piece with
+     | .goError => true
+     | _ => false)
+
+/-- caller `i` has been through its two critical sections, and both failed -/
+def wentThrough (log : List LogEntry) (i : Nat) : Bool :=
+  log.any (·.failedOwn i) && log.any (·.failedGoError i)
+
+def LogEntry.isForce (x : LogEntry) : Bool :=
+  match x.piece with
+  | .force => true
+  | _ => false
+
+/-- every forced write in `rest` was made by a caller that, in what was logged before it (`seen` and the
+    part of `rest` in front of it), had been through its two critical sections -/
+def forcedJustified : List LogEntry → List LogEntry → Bool
+  | _, [] => true
+  | seen, x :: xs => (!x.isForce || wentThrough seen x.caller) && forcedJustified (seen ++ [x]) xs
+
 end EnvM
